@@ -126,6 +126,8 @@ pub enum Op {
     ListPushOwn(u8, u16),
     /// overwrite entry i of the list with a borrowed entry j of the same list
     ListSetOwn(u8, u16, u16),
+    /// overwrite entry i of the list (itself a list) with a borrowed entry of *that entry* (a pointer two levels down)
+    ListSetNested(u8, u16, u16),
     /// insert a borrowed entry of the dict (the n-th key) under another key of the same dict
     DictInsertOwn(u8, u16, Txt),
     /// insert, under an existing key (the n-th), a value that is `==` to the stored one but not the same value
@@ -184,6 +186,7 @@ impl Op {
             DictInsert(d, k, e) => json!(["DictInsert", d, k.to_json(), e]),
             ListPushOwn(l, i) => json!(["ListPushOwn", l, i]),
             ListSetOwn(l, i, j) => json!(["ListSetOwn", l, i, j]),
+            ListSetNested(l, i, k) => json!(["ListSetNested", l, i, k]),
             DictInsertOwn(d, n, k) => json!(["DictInsertOwn", d, n, k.to_json()]),
             DictInsertTwin(d, n, t) => json!(["DictInsertTwin", d, n, t]),
             DictGet(d, k, n) => json!(["DictGet", d, k.to_json(), n]),
@@ -238,6 +241,7 @@ impl Op {
             "ListRemove" => ListRemove(u8_(1), ix(2)),
             "ListPushOwn" => ListPushOwn(u8_(1), u(2) as u16),
             "ListSetOwn" => ListSetOwn(u8_(1), u(2) as u16, u(3) as u16),
+            "ListSetNested" => ListSetNested(u8_(1), u(2) as u16, u(3) as u16),
             "DictInsertOwn" => DictInsertOwn(u8_(1), u(2) as u16, t(3)),
             "DictInsertTwin" => DictInsertTwin(u8_(1), u(2) as u16, u8_(3)),
             "DictLen" => DictLen(u8_(1)),
@@ -261,7 +265,7 @@ impl Op {
         })
     }
     pub fn is_container_mutation(&self) -> bool {
-        matches!(self, Op::ListPush(..) | Op::ListSet(..) | Op::ListRemove(..) | Op::DictInsert(..) | Op::DictRemove(..) | Op::ListPushOwn(..) | Op::ListSetOwn(..) | Op::DictInsertOwn(..) | Op::DictInsertTwin(..))
+        matches!(self, Op::ListPush(..) | Op::ListSet(..) | Op::ListRemove(..) | Op::DictInsert(..) | Op::DictRemove(..) | Op::ListPushOwn(..) | Op::ListSetOwn(..) | Op::ListSetNested(..) | Op::DictInsertOwn(..) | Op::DictInsertTwin(..))
     }
     pub fn is_container_read(&self) -> bool {
         matches!(self, Op::ListLen(_) | Op::ListGet(..) | Op::DictLen(_) | Op::DictKeys(..) | Op::DictGet(..) | Op::ToZinc(_) | Op::ToJson(_) | Op::GridFromRows(..))
@@ -371,7 +375,7 @@ pub fn op() -> BoxedStrategy<Op> {
         1 => (slot(), txt(), txt()).prop_map(|(s, a, b)| MakeRefDis(s, a, b)),
         1 => (slot(), txt(), txt()).prop_map(|(s, a, b)| MakeXStr(s, a, b)),
         2 => (slot(), 0u32..26, 0u32..62, prop_oneof![6 => 0u32..62, 1 => Just(59u32)], prop::option::of(prop_oneof![5 => 0u32..1100, 1 => 1000u32..2100])).prop_map(|(s, h, m, sec, ms)| MakeTime(s, h, m, sec, ms)),
-        2 => (slot(), 0i32..=9999, 0u32..14, 0u32..33).prop_map(|(s, y, m, d)| MakeDate(s, y, m, d)),
+        2 => (slot(), prop_oneof![10 => 0i32..=9999, 1 => -60i32..0, 1 => 10_000i32..10_060, 1 => prop::sample::select(vec![-262_143i32, 262_142, -1, 10_000, i32::MIN, i32::MAX])], 0u32..14, 0u32..33).prop_map(|(s, y, m, d)| MakeDate(s, y, m, d)),
         2 => (slot(), slot(), slot()).prop_map(|(s, d, t)| MakeUtcDt(s, d, t)),
         2 => (slot(), slot(), slot(), txt()).prop_map(|(s, d, t, z)| MakeTzDt(s, d, t, z)),
         3 => (slot(), slot(), prop::option::of(slot())).prop_map(|(s, r, m)| GridFromRows(s, r, m)),
@@ -388,6 +392,7 @@ pub fn op() -> BoxedStrategy<Op> {
         3 => (slot(), ix()).prop_map(|(l, i)| ListRemove(l, i)),
         3 => (slot(), any::<u16>()).prop_map(|(l, i)| ListPushOwn(l, i)),
         1 => (slot(), any::<u16>(), any::<u16>()).prop_map(|(l, i, j)| ListSetOwn(l, i, j)),
+        2 => (slot(), any::<u16>(), any::<u16>()).prop_map(|(l, i, k)| ListSetNested(l, i, k)),
         2 => (slot(), any::<u16>(), txt()).prop_map(|(d, n, k)| DictInsertOwn(d, n, k)),
         3 => (slot(), any::<u16>(), 0u8..8).prop_map(|(d, n, t)| DictInsertTwin(d, n, t)),
         2 => slot().prop_map(DictLen),
@@ -1021,6 +1026,45 @@ impl Machine {
                         _ => None,
                     };
                     self.expect_rt(got, want, op)
+                }
+                ListSetNested(l, i, k) => {
+                    let l = &self.sel(*l, W::List);
+                    // entries of the list that are non-empty lists themselves
+                    let inner: Vec<(usize, usize)> = match self.m(*l) {
+                        Some(Value::List(x)) => x.iter().enumerate().filter_map(|(n, e)| if let Value::List(m) = e { (!m.is_empty()).then_some((n, m.len())) } else { None }).collect(),
+                        _ => vec![],
+                    };
+                    if inner.is_empty() {
+                        return Verdict::Pass;
+                    }
+                    let (at, len) = inner[idx(*i, inner.len())];
+                    let sub = idx(*k, len);
+                    let mut p1: *const Value = std::ptr::null();
+                    if c_api::list::haystack_value_get_list_entry_at(self.h(*l), at, &mut p1) != ResultType::TRUE || p1.is_null() {
+                        bail!(op, "{:?}: get_list_entry_at({at}) failed", op.to_json());
+                    }
+                    let mut p2: *const Value = std::ptr::null();
+                    if c_api::list::haystack_value_get_list_entry_at(p1 as *mut Value, sub, &mut p2) != ResultType::TRUE || p2.is_null() {
+                        bail!(op, "{:?}: get_list_entry_at(entry {at}, {sub}) failed", op.to_json());
+                    }
+                    // both borrowed pointers are valid: nothing was modified since they were handed out
+                    let got = c_api::list::haystack_value_set_list_entry_at(self.h(*l), at, p2 as *mut Value);
+                    if let Some(Value::List(list)) = &mut self.model[*l as usize % SLOTS] {
+                        if let Value::List(m) = &list[at] {
+                            let v = m[sub].clone();
+                            list[at] = v;
+                        }
+                    }
+                    let v = self.expect_rt(got, Some(true), op);
+                    if v.is_fail() {
+                        return v;
+                    }
+                    if let (Some(Value::List(list)), false) = (self.m(*l).cloned(), self.h(*l).is_null()) {
+                        if !eq_val(&*self.h(*l), &Value::List(list)) {
+                            bail!(op, "{:?}: the list differs from the model afterwards: {}", op.to_json(), render(&project(&*self.h(*l))));
+                        }
+                    }
+                    v
                 }
                 ListPushOwn(l, i) | ListSetOwn(l, i, _) => {
                     // the protocol lets a borrowed entry pointer be used while its container is alive and
